@@ -14,6 +14,8 @@
 //   goals <m> <state>*m                                                         -> ok
 //   collapse <maxSteps> <maxEmpty> | rope <delta> <eqTol> | subdivide | interp | interpn <count>
 //   repair <attempts> <k> <state>*k      (checkAndRepair, raw samples scripted; r = 2*originalValid + result; appends ` iv <m> (<state> <0/1>)*m`)
+//   bsplines <maxSteps> <minChange> | bgoal <obj> <attempts> <rangeRatio> <snap> <k> <u>*k
+//   perturbs <obj> <stepSize> <maxSteps> <maxEmpty> <snap> <kh> <h>*kh <ks> <state>*ks     (whole routines, scripted draws)
 //   reduce <maxSteps> <maxEmpty> <rangeRatio> <k> <raw>*k
 //   pshort <maxSteps> <maxEmpty> <rangeRatio> <snap> <k> <u>*k
 //   rnd <seed> <obj> (reduce ms me rr | pshort ms me rr snap | collapse ms me | rope delta tol | bspline steps minChange
@@ -41,7 +43,8 @@ namespace vp
         bool scripted = false;
         std::vector<unsigned long long> raws;
         std::vector<double> us;
-        size_t ri = 0, ui = 0;
+        std::vector<double> hs;   // scripted halfNormalReal draws: a + (b - a) * h
+        size_t ri = 0, ui = 0, hi = 0;
     };
     static DrawScript g_draws;
 
@@ -66,7 +69,11 @@ namespace vp
         }
         double halfNormalReal(double a, double b, double f)
         {
-            return r.halfNormalReal(a, b, f);
+            if (!g_draws.scripted)
+                return r.halfNormalReal(a, b, f);
+            double h = g_draws.hi < g_draws.hs.size() ? g_draws.hs[g_draws.hi] : 0.0;
+            ++g_draws.hi;
+            return a + (b - a) * h;
         }
     };
 }  // namespace vp
@@ -80,6 +87,8 @@ namespace vp
 
 namespace og = ompl::geometric;
 namespace ob = ompl::base;
+
+static bool g_inCm = false;   // inside a checkMotion call
 
 // ------------------------------------------------------------------ recording motion validator
 struct CmRec
@@ -96,14 +105,18 @@ public:
     }
     bool checkMotion(const ob::State *s1, const ob::State *s2) const override
     {
+        g_inCm = true;
         bool r = inner_.checkMotion(s1, s2);
+        g_inCm = false;
         if (rec)
             log.push_back({vp::showState(sp_, s1), vp::showState(sp_, s2), r});
         return r;
     }
     bool checkMotion(const ob::State *s1, const ob::State *s2, std::pair<ob::State *, double> &lv) const override
     {
+        g_inCm = true;
         bool r = inner_.checkMotion(s1, s2, lv);
+        g_inCm = false;
         if (rec)
             log.push_back({vp::showState(sp_, s1), vp::showState(sp_, s2), r});
         return r;
@@ -114,6 +127,30 @@ public:
 private:
     ob::DiscreteMotionValidator inner_;
     ob::StateSpacePtr sp_;
+};
+
+// isValid calls made by the routine itself (not from inside checkMotion) are recorded for the model's `valid` oracle
+struct IvRec
+{
+    std::string s;
+    bool ans;
+};
+static std::vector<IvRec> g_iv;
+static bool g_ivRec = false;
+
+class TopValidity : public vp::RecordingValidityChecker
+{
+public:
+    TopValidity(const ob::SpaceInformationPtr &si, vp::Env env) : vp::RecordingValidityChecker(si, std::move(env), false)
+    {
+    }
+    bool isValid(const ob::State *st) const override
+    {
+        bool v = vp::RecordingValidityChecker::isValid(st);
+        if (g_ivRec && !g_inCm)
+            g_iv.push_back({vp::showState(si_->getStateSpace(), st), v});
+        return v;
+    }
 };
 
 // a simple smooth cost field for StateCostIntegralObjective: 1 + (first real)^2
@@ -186,6 +223,8 @@ public:
             return ob::Cost(1.0 + ((x > 3.0 && x < 4.5) ? 24.0 : 0.0) + ((y > 6.0 && y < 7.0) ? 11.0 : 0.0));
         if (kind_ == 1)
             return ob::Cost(x < 5.0 ? 1.0 : 12.0);
+        if (!(x == x) || !(y == y) || std::fabs(x) > 1e9 || std::fabs(y) > 1e9)
+            return ob::Cost(1.0);   // NaN / huge candidate states (stepSize / 0): keep the cast defined
         return ob::Cost((((long)std::floor(x) + (long)std::floor(y)) & 1) ? 9.0 : 1.0);
     }
 
@@ -308,7 +347,7 @@ int main()
                 c = Ctx();
                 c.space = sp;
                 c.si = std::make_shared<ob::SpaceInformation>(sp);
-                c.svc = std::make_shared<vp::RecordingValidityChecker>(c.si, env, false);
+                c.svc = std::make_shared<TopValidity>(c.si, env);
                 c.si->setStateValidityChecker(c.svc);
                 c.si->setStateValidityCheckingResolution(frac);
                 c.mv = std::make_shared<RecMV>(c.si);
@@ -581,6 +620,64 @@ int main()
                 c.mv->rec = false;
                 c.space->clearStateSamplerAllocator();
                 ret = (pr.first ? 2 : 0) + (pr.second ? 1 : 0);
+                for (auto *st : sc->states)
+                    c.si->freeState(st);
+                c.si->freeState(sc->dflt);
+            }
+            else if (!rnd && rt == "bsplines")
+            {
+                // bsplines <maxSteps> <minChange>: smoothBSpline (deterministic) with the routine's own isValid calls recorded
+                nargs(2);
+                g_iv.clear();
+                g_ivRec = true;
+                ps.smoothBSpline(p, argN(1), argF(2));
+                g_ivRec = false;
+                extra = " iv " + std::to_string(g_iv.size());
+                for (const auto &r : g_iv)
+                    extra += " " + r.s + (r.ans ? " 1" : " 0");
+            }
+            else if (!rnd && rt == "bgoal")
+            {
+                // bgoal <obj> <attempts> <rangeRatio> <snap> <k> <u>*k: findBetterGoal, scripted uniform draws, goal region = the
+                // scripted goal states (GoalStates::sampleGoal cycles through them), termination condition never fires
+                unsigned long long n = argN(5);
+                nargs(5 + n);
+                obj = makeObj(c, t.at(k + 1));
+                og::PathSimplifier ps2(c.si, goal, obj);
+                cost0 = p.cost(obj).value();
+                vp::g_draws.scripted = true;
+                for (unsigned long long j = 0; j < n; ++j)
+                    vp::g_draws.us.push_back(argF(6 + j));
+                auto cnt = std::make_shared<vp::EvalCounter>();
+                cnt->fireAt = 1000000000UL;
+                ret = ps2.findBetterGoal(p, vp::evalCountPtc(cnt), argN(2), argF(3), argF(4));
+            }
+            else if (!rnd && rt == "perturbs")
+            {
+                // perturbs <obj> <stepSize> <maxSteps> <maxEmpty> <snap> <kh> <h>*kh <ks> <state>*ks: perturbPath with scripted halfNormal
+                // draws and a scripted state sampler
+                obj = makeObj(c, t.at(k + 1));
+                og::PathSimplifier ps2(c.si, goal, obj);
+                cost0 = p.cost(obj).value();
+                unsigned long long kh = argN(6);
+                vp::g_draws.scripted = true;
+                for (unsigned long long j = 0; j < kh; ++j)
+                    vp::g_draws.hs.push_back(argF(7 + j));
+                unsigned long long ksn = argN(7 + kh);
+                nargs(7 + kh + ksn * c.w);
+                auto sc = std::make_shared<SampleScript>();
+                for (unsigned long long j = 0; j < ksn; ++j)
+                {
+                    ob::State *st = c.si->allocState();
+                    size_t i = k + 8 + kh + j * c.w;
+                    vp::parseStateInto(c.space.get(), st, t, i);
+                    sc->states.push_back(st);
+                }
+                sc->dflt = c.si->cloneState(p.getState(0));
+                c.space->setStateSamplerAllocator(
+                    [sc](const ob::StateSpace *sp) { return std::make_shared<ScriptedSampler>(sp, sc); });
+                ret = ps2.perturbPath(p, argF(2), argN(3), argN(4), argF(5));
+                c.space->clearStateSamplerAllocator();
                 for (auto *st : sc->states)
                     c.si->freeState(st);
                 c.si->freeState(sc->dflt);
